@@ -2,6 +2,8 @@
 // Streams are well-formed per endpoint; expectations are computed from the generation script itself
 // (which message completes at which frame), the reference model is only used as a cross-check.
 #pragma once
+#include <numeric>
+
 #include "dec_common.h"
 
 namespace vf {
@@ -462,6 +464,94 @@ inline void manySegments(Ctx& c, long j)
     c.count("messages_in_hundreds_of_segments");
 }
 
+// deterministic: hundreds of endpoints mid-message at the same time (all 256 streams of one device plus streams of further
+// devices), round-robin and nested orders, unsegmented traffic of yet another endpoint in between
+inline void manyEndpoints(Ctx& c, long j)
+{
+    Rng r = c.fixedRng(j, 16);
+    const size_t n = j == 0 ? 300 : (j == 1 ? 257 : 700);
+    History h;
+    for (size_t e = 0; e < n; ++e)
+    {
+        Stream st;
+        st.dev = static_cast<uint16_t>(0x0010 + e / 256);
+        st.stream = static_cast<uint8_t>(e % 256);
+        SentMsg s;
+        s.ver = 1;
+        s.mt = wire::MT_DATA;
+        s.first.ts = r.next();
+        s.first.idWord = static_cast<uint32_t>(e);
+        s.first.flags = 0;
+        s.first.ptype = 0x44;
+        s.segmented = true;
+        s.data = uniqueContent(static_cast<uint32_t>(20000 + e), 24, false);
+        uint16_t seq = static_cast<uint16_t>(r.next());
+        for (int i = 0; i < 3; ++i)
+        {
+            GMsg m = s.first;
+            m.flags |= (i == 0 ? wire::SEG_FIRST : (i == 2 ? wire::SEG_LAST : wire::SEG_MID));
+            m.payload.assign(s.data.begin() + i * 8, s.data.begin() + (i + 1) * 8);
+            SFrame f;
+            f.endpoint = static_cast<int>(e);
+            f.raw = buildFrame(1, st.dev, wire::MT_DATA, st.stream, seq++, {m});
+            if (i == 2)
+                f.completes.push_back(static_cast<int>(h.msgs.size()));
+            st.frames.push_back(std::move(f));
+        }
+        h.msgs.push_back(std::move(s));
+        h.streams.push_back(std::move(st));
+    }
+    // endpoint n: unsegmented traffic
+    {
+        Stream st;
+        st.dev = 0x0F00;
+        st.stream = 9;
+        for (int i = 0; i < 40; ++i)
+        {
+            SentMsg s;
+            s.ver = 1;
+            s.mt = wire::MT_DATA;
+            s.first.ts = r.next();
+            s.first.ptype = 0x45;
+            s.first.flags = 0;
+            s.first.idWord = 7;
+            s.segmented = false;
+            s.data = uniqueContent(static_cast<uint32_t>(50000 + i), 12, false);
+            GMsg m = s.first;
+            m.payload = s.data;
+            SFrame f;
+            f.endpoint = static_cast<int>(n);
+            f.raw = buildFrame(1, st.dev, wire::MT_DATA, st.stream, static_cast<uint16_t>(i), {m});
+            f.completes.push_back(static_cast<int>(h.msgs.size()));
+            h.msgs.push_back(std::move(s));
+            st.frames.push_back(std::move(f));
+        }
+        h.streams.push_back(std::move(st));
+    }
+    std::vector<int> order;
+    size_t u = 0;
+    for (int phase = 0; phase < 3; ++phase)
+        for (size_t k = 0; k < n; ++k)
+        {
+            size_t e = (phase == 1) ? (k * 7) % n : ((phase == 2) ? n - 1 - k : k);
+            if (phase == 1 && std::__gcd(static_cast<size_t>(7), n) != 1)
+                e = k;
+            order.push_back(static_cast<int>(e));
+            if (k % 16 == 0 && u < 40)
+            {
+                order.push_back(static_cast<int>(n));
+                ++u;
+            }
+        }
+    while (u++ < 40)
+        order.push_back(static_cast<int>(n));
+    uint64_t il;
+    bool mo;
+    runInterleaving(c, h, order, il, mo);
+    c.sig(mix64(il, static_cast<uint64_t>(j) + 0xe9d));
+    c.count("histories_with_hundreds_of_endpoints_mid_message");
+}
+
 inline void randomCase(Ctx& c, long idx)
 {
     Rng r = c.caseRng(idx);
@@ -516,7 +606,7 @@ inline void randomCase(Ctx& c, long idx)
 
 inline long count(Ctx& c)
 {
-    return 36 + 24 + 3 + (c.thorough() ? 3000000 : 12000);
+    return 36 + 24 + 3 + 3 + (c.thorough() ? 3000000 : 12000);
 }
 inline void run(Ctx& c, long idx)
 {
@@ -526,6 +616,8 @@ inline void run(Ctx& c, long idx)
         return bigTotals(c, idx - 36);
     if (idx < 63)
         return manySegments(c, idx - 60);
+    if (idx < 66)
+        return manyEndpoints(c, idx - 63);
     randomCase(c, idx);
 }
 
